@@ -2,6 +2,7 @@
 //! `mc replay <ID> <file>` — replays one recorded case without the explorer.
 
 mod common;
+mod numeral;
 mod props;
 mod regdump;
 
